@@ -1,7 +1,7 @@
 import vflib
-WRAPS = ("psGetEntropy", "gettimeofday", "time", "clock_gettime")
+WRAPS = ("psGetEntropy", "gettimeofday", "time", "clock_gettime", "chooseSkeSigAlg", "chooseSigAlg", "tls13ChooseSigAlg")
 def run(ctx):
-    st = [dict(variant="asan", name="c07", sources=["checks/c07_negotiation.c", "harness/mx_wraps.c"], wraps=WRAPS, shards=vflib.NCPU, timeout=7200 if ctx.thorough else 1500)]
+    st = [dict(variant="asan", name="c07", sources=["checks/c07_negotiation.c", "harness/mx_wraps.c"], wraps=WRAPS, libs=["-lcrypto"], shards=vflib.NCPU, timeout=7200 if ctx.thorough else 1500)]
     rule = ("Each case = one pair of client/server configurations (all 7x7 TLS and 3x3 DTLS version subsets exhaustively; every single suite per version with the suite enabled or disabled on "
             "the server; seeded random suite lists; TLS 1.3 group and signature-algorithm subsets; extended-master-secret on/off pairs; fallback SCSV for every version-set pair) or one "
             "man-in-the-middle rewrite of one ClientHello/ServerHello field (legacy version, random tail, session id, suite drop/insert/swap/set, compression, each extension removed / "
